@@ -1190,7 +1190,6 @@ class Expr:
             "floor",
             "logical_not",
             "sign",
-            "copysign",
             "conjugate",
             "asin_acos_kernel",
         }:
@@ -1206,6 +1205,7 @@ class Expr:
             "hypot",
             "remainder",
             "atan2",
+            "copysign",
         }:
             return self.operands[0].get_type().max(self.operands[1].get_type())
         elif self.kind in {"absolute", "real", "imag"}:
